@@ -146,10 +146,14 @@ type ref struct {
 	edges map[string]map[string]bool // grantee -> roles
 	// for narrow signatures: table-level grants that a later database-level REVOKE should not have touched
 	dbRevokeAfterTblGrant map[string]bool // account|db
+	// q1: this copy additionally applies known root cause Q1 (a database-level REVOKE that leaves no database-level
+	// privilege drops the table-level grants of that database).  Used ONLY to name the root cause of a predicate
+	// failure, never to decide whether there is one.
+	q1 bool
 }
 
 func newRef() *ref {
-	return &ref{map[string]map[string]bool{}, map[string]map[string]bool{}, map[string]bool{}}
+	return &ref{facts: map[string]map[string]bool{}, edges: map[string]map[string]bool{}, dbRevokeAfterTblGrant: map[string]bool{}}
 }
 
 func factKey(db, tbl string, p int) string {
@@ -237,6 +241,21 @@ func (r *ref) apply(s stmtT) {
 }
 
 func (r *ref) noteDbRevoke(s stmtT) {
+	if r.q1 && s.DB != "" && s.Tbl == "" {
+		left := false
+		for k := range r.facts[s.User] {
+			if strings.HasPrefix(k, "d|"+s.DB+"|") {
+				left = true
+			}
+		}
+		if !left {
+			for k := range r.facts[s.User] {
+				if strings.HasPrefix(k, "t|"+s.DB+"|") {
+					delete(r.facts[s.User], k)
+				}
+			}
+		}
+	}
 	if s.DB != "" && s.Tbl == "" {
 		for k := range r.facts[s.User] {
 			if strings.HasPrefix(k, "t|"+s.DB+"|") {
@@ -328,6 +347,18 @@ type probeDef struct {
 	prep  func(k int) string // run by root before the probe ("" = none)
 }
 
+// unfilteredDeleteElsewhere: DELETE without WHERE/LIMIT on a table qualified with a database other than the session's
+// current one (such a DELETE is converted to TRUNCATE by analyzer/process_truncate.go).
+func unfilteredDeleteElsewhere(q, curDB string) bool {
+	up := strings.ToUpper(q)
+	if !strings.HasPrefix(up, "DELETE FROM ") || strings.Contains(up, " WHERE ") || strings.Contains(up, " LIMIT ") {
+		return false
+	}
+	name := strings.Fields(q[len("DELETE FROM "):])[0]
+	i := strings.Index(name, ".")
+	return i > 0 && !strings.EqualFold(strings.Trim(name[:i], "`"), curDB)
+}
+
 var probeDefs = []probeDef{
 	{"select/db.t", func(int) []need { return []need{{"db", "t", 0}} }, func(int) string { return "SELECT a FROM db.t" }, nil},
 	{"select/db.s", func(int) []need { return []need{{"db", "s", 0}} }, func(int) string { return "SELECT a FROM s" }, nil},
@@ -355,6 +386,8 @@ func run(c *lib.Ctx, cs caseT) {
 		"CREATE TABLE db2.t (a int primary key, b int)", "CREATE TABLE db2.s (a int primary key, b int)",
 		"INSERT INTO db.t VALUES (1,1),(2,2)", "INSERT INTO db.s VALUES (1,1)", "INSERT INTO db2.t VALUES (1,1)")
 	rf := newRef()
+	rq := newRef() // root-cause classification only
+	rq.q1 = true
 	for _, s := range cs.History {
 		r := root.Query(s.SQL())
 		if r.Panic != "" {
@@ -363,6 +396,7 @@ func run(c *lib.Ctx, cs caseT) {
 			return
 		}
 		rf.apply(s)
+		rq.apply(s)
 		c.Count("stmt/" + s.Kind)
 	}
 	// probes
@@ -398,14 +432,10 @@ func run(c *lib.Ctx, cs caseT) {
 			needs := pd.needs(k)
 			ops := make([]string, len(needs))
 			want := true
-			via := ""
 			for i, n := range needs {
 				ops[i] = lib.CoqTuple(lib.CoqStr(n.db), lib.CoqStr(n.tbl), fmt.Sprint(n.priv))
-				ok, v := rf.has(u, n)
+				ok, _ := rf.has(u, n)
 				want = want && ok
-				if v != "" {
-					via = v
-				}
 			}
 			_ = ops
 			terms = append(terms, lib.CoqBool(allowed))
@@ -419,14 +449,28 @@ func run(c *lib.Ctx, cs caseT) {
 			case !allowed && kind != "denied":
 				fails = append(fails, pf{"probe-failed-for-another-reason/" + pd.class, fmt.Sprintf("%s as %s: %v", q, u, r.Err)})
 			case allowed && !want:
-				fails = append(fails, pf{"allowed-without-grant/" + pd.class,
+				fails = append(fails, pf{"allowed-without-grant/" + strings.SplitN(pd.class, "/", 2)[0],
 					fmt.Sprintf("%s as %s was allowed although no granted privilege (user or roles, global/database/table) covers it", q, u)})
 			case !allowed && want:
-				sig := "denied-despite-grant/" + pd.class
-				if pd.class == "delete/db2.t" && !rf.anyOn(u, "db") {
-					sig = "denied-despite-grant/delete-without-where/table-outside-current-database-and-no-privilege-on-current-database"
-				} else if via != "" && rf.dbRevokeAfterTblGrant[via] {
+				// name the root cause from the shape of the failing input: which known defect(s), applied to the
+				// reference, turn "allowed" into "denied" for this probe?
+				kindOf := strings.SplitN(pd.class, "/", 2)[0]
+				udel := unfilteredDeleteElsewhere(q, e.DB)
+				wantQ1 := true
+				for _, n := range needs {
+					ok, _ := rq.has(u, n)
+					wantQ1 = wantQ1 && ok
+				}
+				wantQ2 := want && (!udel || rf.anyOn(u, e.DB))
+				wantQ12 := wantQ1 && (!udel || rq.anyOn(u, e.DB))
+				sig := "denied-despite-grant/" + kindOf
+				switch {
+				case !wantQ2:
+					sig = "denied-despite-grant/unfiltered-delete-on-table-outside-current-database/no-privilege-on-current-database"
+				case !wantQ1:
 					sig = "denied-despite-table-grant/after-database-level-revoke-on-same-database"
+				case !wantQ12:
+					sig = "denied-despite-grant/unfiltered-delete-on-table-outside-current-database/privileges-on-current-database-dropped-by-database-level-revoke"
 				}
 				fails = append(fails, pf{sig, fmt.Sprintf("%s as %s was denied (%v) although the granted privileges cover it", q, u, r.Err)})
 			}
@@ -560,6 +604,12 @@ func main() {
 				{Kind: "revoke", User: "u1", DB: "db", Privs: []string{"INSERT"}}}},
 			{History: []stmtT{cu("u1"), {Kind: "grant", User: "u1", DB: "db", Tbl: "t", Privs: []string{"SELECT"}},
 				{Kind: "grant", User: "u1", DB: "db", Privs: []string{"INSERT"}}, {Kind: "revoke-all", User: "u1", DB: "db"}}},
+			// both: the only privilege on the current database is a table grant dropped by a database-level REVOKE, then an
+			// unfiltered DELETE on the other database
+			{History: []stmtT{cu("u3"), {Kind: "grant", User: "u3", DB: "db2", Privs: []string{"DELETE"}}, {Kind: "grant", User: "u3", DB: "db", Tbl: "s", Privs: []string{"UPDATE"}},
+				{Kind: "revoke", User: "u3", DB: "db", Privs: []string{"SELECT"}}}},
+			// the unfiltered-DELETE defect alone
+			{History: []stmtT{cu("u2"), {Kind: "grant", User: "u2", DB: "db2", Privs: []string{"SELECT", "DELETE"}}}},
 			// ordinary behaviour
 			{History: []stmtT{cu("u1"), {Kind: "grant", User: "u1", DB: "db", Tbl: "t", Privs: []string{"SELECT"}}}},
 			{History: []stmtT{cu("u1"), cu("u2"), {Kind: "create-role", User: "r1"}, {Kind: "grant", User: "r1", DB: "db2", Privs: []string{"SELECT", "DELETE"}},
